@@ -143,6 +143,26 @@ func c15Jobs(tier string) []string {
 	return jobs
 }
 
+// standardClientRebuilds: can a standard client rebuild the schema from the answer to the *standard* introspection
+// query (graphql-js's text, seven ofType levels) - asked independently of whatever query the gateway sends
+func standardClientRebuilds(src *ast.Schema) bool {
+	doc, errs := gqlparser.LoadQuery(src, graphqlJSIntrospection)
+	if errs != nil {
+		return false
+	}
+	data, err := gqlref.Execute(src, &gqlref.IntrospectResolver{Schema: src}, doc.Operations.ForName("IntrospectionQuery"), nil, nil)
+	if err != nil {
+		return false
+	}
+	b, _ := json.Marshal(data)
+	var m map[string]interface{}
+	if json.Unmarshal(b, &m) != nil {
+		return false
+	}
+	_, _, cerr := gqlref.FromIntrospection(m)
+	return cerr == nil
+}
+
 func c15One(sdl string) (atoms []string, sigs []string, nontrivial bool, generr string) {
 	src, err := gqlparser.LoadSchema(&ast.Source{Name: "src", Input: sdl})
 	if err != nil {
@@ -165,7 +185,7 @@ func c15One(sdl string) (atoms []string, sigs []string, nontrivial bool, generr 
 	if ierr != nil {
 		if strings.HasPrefix(ierr.Error(), "PANIC") {
 			set["introspection panicked: "+Template(ierr.Error())] = true
-		} else if _, _, cerr := gqlref.FromIntrospection(iq.last); cerr == nil {
+		} else if standardClientRebuilds(src) {
 			set["a schema a standard client can rebuild is rejected at start-up: "+Template(ierr.Error())] = true
 		}
 		return atoms, setToList(set), true, ""
